@@ -117,9 +117,75 @@ def run(res):
         "samples": [{"invocation": r.text, "origin": r.origin, "outcome": r.real_status, "error_at": r.real_pos, "ms": r.ms}
                     for r in recs[::max(1, len(recs) // 6)][:6]],
     })
+    name3 = "direct:error location under rustc == in-process == model"
+    res.obligations.append(name3)
+    if rustc_error_positions(res) == 0:
+        res.discharged.append(name3)
+    else:
+        failing += 1
     res.obligations.append("direct:no-panic,terminates(%d streams)" % len(recs))
     if not failing:
         res.discharged.append("direct:no-panic,terminates(%d streams)" % len(recs))
+
+
+# ---- under the real compiler: where a rejected invocation's error is reported -----------------------
+
+RUSTC_REJECTED = [
+    "v, S { a: }", "v, S { a 1 }", "v, S { .., a: 1 }", "v, #(1, .., 2)", "v, #{ .., \"k\": 1 }", "v, (1: 5)", "v, Some(0: 1, 2: 3)",
+    "v, || true", "v, |a, b| a > b", "v, = 5", "v, => 5", "v, >", "v, Some(==)", "v, 1 2", "v, Some(1) 2", "v, _ { a: 1 }",
+    "v, S { a.: 1 }", "v, S { a.fn: 1 }", "v, S { a[]: 1 }", "v, S { a.1.5e3: 1 }", "v, S { -1: 1 }", "v, S { a.4294967296: 1, .. }",
+    "v, [1 2]", "v, #(1 2)", "v, (1 2)", "v, S { a: [1, =] }", "v, Some(_ { value: 42 })", "v, E::T(0.len(: 1)", "v, (*x: 1)",
+    "v", "v,", ", 1", "v, S { a: 1, b }", "v, S { a: 1,, b: 2 }", "v, #{ \"k\" 1 }", "v, #(.., ..)", "v, S { a: 1, .., }",
+    "v, S {\n    a: 1,\n    b 2,\n}", "v,\n    Some(\n        > )", "v, [\n  1,\n  2 3\n]",
+]
+
+
+def rustc_error_positions(res):
+    """Each rejected invocation compiled by the real rustc: the error's primary location must be where the in-process run
+    (and the model) put it: the offending token, the closing delimiter of the group that ended too early, or the call."""
+    import e2e
+    import maclib
+    texts = RUSTC_REJECTED
+    recs = parsestage.run_texts(texts)
+    progs, meta = [], []
+    for t, r in zip(texts, recs):
+        if r.real_status != "err":
+            continue
+        head = "#![allow(unused)]\nuse assert_struct::assert_struct;\nfn main() {\n    let v = 1;\n"
+        prefix = "    assert_struct!("
+        progs.append(head + prefix + t + ");\n}\n")
+        meta.append((t, r, head.count("\n") + 1, len(prefix)))
+    out = e2e.compile_many(progs, run=False, json_diag=True, tag="c13loc")
+    e2e.cleanup("c13loc")
+    bad = 0
+    n_tok = n_call = 0
+    for (t, r, line0, off), o in zip(meta, out):
+        import prop_c20
+        spans = prop_c20.primary_spans(o["stderr"])
+        if o["compiled"] or not spans:
+            bad += 1
+            res.violation("failing-input", "an invocation the macro rejects in-process compiles (or fails without a located error) under rustc",
+                          {"invocation": "assert_struct!(%s)" % t})
+            continue
+        sp = spans[0]
+        if r.real_pos == "cs":
+            n_call += 1
+            want = (line0, off - len("assert_struct!(") + 1)          # the macro call
+            ok = sp["line_start"] == want[0] and sp["col_start"] == want[1]
+        else:
+            n_tok += 1
+            l, c = (int(x) for x in r.real_pos.split("."))
+            want = (line0 + l - 1, c + 1 + (off if l == 1 else 0))
+            ok = sp["line_start"] == want[0] and sp["col_start"] == want[1]
+        if not ok:
+            bad += 1
+            if bad <= 3:
+                res.violation("failing-input", "under rustc the compile error of a rejected invocation is reported at line %d column %d; the macro attached it to "
+                              "line %d column %d (%s)" % (sp["line_start"], sp["col_start"], want[0], want[1],
+                                                          "the call" if r.real_pos == "cs" else "token at %s of the invocation" % r.real_pos),
+                              {"invocation": "assert_struct!(%s)" % t, "rustc": sp, "in_process_position": r.real_pos, "message": r.msg})
+    res.streams["error-location(rustc)"] = {"programs": len(progs), "errors_on_a_token": n_tok, "errors_on_the_call": n_call, "mismatches": bad}
+    return bad
 
 
 def replay_file(res, path, corpus=False):
